@@ -23,12 +23,14 @@ TIERS = {
     "quick": {"shards": 2, "cases": 6000, "timeout": 300},
     "thorough": {"shards": 16, "cases": 60000, "timeout": 1200},
 }
-FLOORS = {"quick": {"distinct_nontrivial": 500, "foreign_char_rejections": 300,
+FLOORS = {"quick": {"cases_with_debug_logging": 750,
+                    "distinct_nontrivial": 500, "foreign_char_rejections": 300,
                     "overflow_rejections": 100, "roundtrips": 5000, "wrong_length_rejections": 300,
                     "yields_injected_inside_conversions": 20000,
                     "decorated_short_rejections": 300, "junk_around_valid_rejections": 600,
                     "case_variant_rejections": 300, "damaged_canonical_rejections": 500},
-          "thorough": {"distinct_nontrivial": 5000, "foreign_char_rejections": 3000,
+          "thorough": {"cases_with_debug_logging": 3000,
+                       "distinct_nontrivial": 5000, "foreign_char_rejections": 3000,
                        "overflow_rejections": 1000, "roundtrips": 100000, "wrong_length_rejections": 10000,
                        "yields_injected_inside_conversions": 200000,
                        "decorated_short_rejections": 10000, "junk_around_valid_rejections": 20000,
